@@ -1,6 +1,26 @@
-"""Storage-level (S) driver: real `vsb backup` / `vsb restore` runs on generated trees and histories under a fake
-clock, storage decoded by an independent reader.  (Under construction.)"""
+"""Storage-level part of C10: real `vsb backup` runs decoded by the independent reader (tar + zstd crates used
+directly; in the thorough tier the decompressed tar is also re-read with python's tarfile)."""
+import io
+import os
+import tarfile
+
+from . import build, runs, slevel
 
 
 def run_c10(ctx):
-    ctx.notes.append("storage-level part (entries vs lines, unique prefix hash, modes) not built yet")
+    thorough = ctx.tier == "thorough"
+    rng = ctx.rng
+    build.ensure_vsb()
+    nhist, nruns = (25, 6) if thorough else (3, 4)
+    for h in range(nhist):
+        with slevel.Sandbox("c10") as sb:
+            H = runs.History(ctx, sb, rng, "C10", rng.randrange(1, 4), rng.randrange(1, 4), nitems=rng.choice([1, 2]), identity_changes=True)
+            H.w.populate(nfiles=10)
+            for i in range(nruns):
+                H.run()
+                if ctx.violations:
+                    break
+            H.report_diffs("backup-run")
+        if ctx.violations:
+            break
+    ctx.count("storage.histories", nhist)
